@@ -10,6 +10,7 @@ import (
 	"strings"
 	"sync"
 	"testing"
+	"time"
 
 	"github.com/onheap/eval"
 	"pgregory.net/rapid"
@@ -304,6 +305,17 @@ func checkC08(c C08Case, r *Rec) *Violation {
 		withCap := make([]string, len(cc.StatelessOperators), len(cc.StatelessOperators)+5)
 		copy(withCap, cc.StatelessOperators)
 		cc.StatelessOperators = withCap
+	}
+	// constants the caller wrote in Go types the engine would normalise when it reads them (int, int32,
+	// []int, time.Time, Duration): no source mentions them; they are the caller's values and stay as they are
+	if c.Mask%2 == 1 {
+		cc.ConstantMap["KRAW_INT"] = int(5)
+		cc.ConstantMap["KRAW_I32"] = int32(-7)
+		cc.ConstantMap["KRAW_LIST"] = []int{3, 1, 2}
+		cc.ConstantMap["KRAW_TIME"] = time.Unix(1700000000, 5)
+		cc.ConstantMap["KRAW_DUR"] = 1500 * time.Millisecond
+		cc.ConstantMap["KRAW_U8"] = uint8(200)
+		r.Class("caller-constants-of-non-canonical-go-types")
 	}
 	// a config written as a struct literal leaves what it does not need nil
 	if c.Mask%3 == 1 {
